@@ -114,7 +114,7 @@ func evalC03(c *core.Ctx, e *eco.Eco, op string, args []string) []core.Violation
 func runC03(c *core.Ctx, ck *Check) {
 	evalWitnesses(c, ck)
 	ecos := eco.All()
-	rounds := c.Scale(6, 240)
+	rounds := c.Scale(16, 400)
 	type job struct {
 		e *eco.Eco
 		k int
@@ -154,7 +154,24 @@ func runC03(c *core.Ctx, ck *Check) {
 				}
 				b := append([]string{}, a...)
 				pos := -1
-				switch r.IntN(4) {
+				switch r.IntN(5) {
+				case 4: // an earlier component one larger, a LATER component of the smaller version huge: later
+					// components must never bleed into earlier ones (packed sort keys, overflow, truncation)
+					if arity >= 2 {
+						pos = r.IntN(arity - 1)
+						n, _ := strconv.ParseInt(a[pos], 10, 64)
+						if n >= 1<<31-1 {
+							n = 5
+							a[pos] = "5"
+						}
+						b[pos] = strconv.FormatInt(n+1, 10)
+						later := pos + 1 + r.IntN(arity-pos-1)
+						a[later] = []string{"2147483647", "65536", "65535", "4294967295", "2147483648", "16777216", "1000000"}[r.IntN(7)]
+						if a[later] == "4294967295" || a[later] == "2147483648" {
+							a[later] = "2147483647"
+						}
+						b[later] = []string{"0", "1", a[later]}[r.IntN(3)]
+					}
 				case 0: // equal
 				case 1, 2: // one component differs
 					pos = r.IntN(arity)
